@@ -27,6 +27,10 @@ class Engine(ExprMixin, StmtMixin, CallMixin, EngineBase):
         return mod
 
     # ------------------------------------------------------------------
+    def add_module(self, name, src, path='<sidecar>'):
+        """a spec-level module (e.g. the operational contract of an external caller), executed like repo code."""
+        self.modules[name] = (ast.parse(src), src, path)
+
     def make_record(self, cls, st, fields=None, dynamic=()):
         schema = dict(self.records.get(cls, {}))
         schema.update(fields or {})
@@ -37,7 +41,7 @@ class Engine(ExprMixin, StmtMixin, CallMixin, EngineBase):
                 f[name] = self.make_record(t[1], st)
             else:
                 f[name] = fresh_val(t, '%s_%s' % (cls.split('.')[-1], name), st)
-        present = {d: z3.Bool(fresh_name('present_' + d)) for d in dynamic}
+        present = {d: z3.Bool(fresh_name('present_' + d)) for d in (dynamic or self.record_dynamic.get(cls, ()))}
         return st.alloc(HRec(cls, f, present))
 
     def make_param(self, name, t, st):
@@ -97,6 +101,8 @@ class Engine(ExprMixin, StmtMixin, CallMixin, EngineBase):
                 s1.frames[self.entry_fid]['_ret'] = res
                 if 'result' not in params:
                     s1.frames[self.entry_fid]['result'] = res
+                for g, e in c.ghost_exit.items():
+                    s1.ghost[g] = self.ev_spec_val(e, s1)
                 for n, e in enumerate(c.ensures):
                     self.oblige(s1, 'post', str(n), e, self.ev_spec(e, s1), fdef.lineno)
                 if not canary_done and c.canary:
@@ -104,6 +110,9 @@ class Engine(ExprMixin, StmtMixin, CallMixin, EngineBase):
                     self.oblige(s1, 'canary', 'end', 'False (must NOT be provable: hypotheses are consistent)',
                                 z3.BoolVal(False), fdef.lineno, props=())
             elif kind == 'raise':
+                for g, e in c.ghost_exit.items():
+                    if c.extra.get('ghost_exit_on_raise'):
+                        s1.ghost[g] = self.ev_spec_val(e, s1)
                 posts = None
                 cls = val.cls
                 while cls is not None and posts is None:
